@@ -142,7 +142,15 @@ class Netlist(object):
                 if key not in nl.mems:
                     rom = None
                     if isinstance(mem, pyrtl.RomBlock):
-                        rom = (lambda mm: (lambda a: mm._get_read_data(a)))(mem)
+                        def _rom(mm):
+                            def read(a):
+                                try:
+                                    return mm._get_read_data(a)
+                                except pyrtl.PyrtlError as e:
+                                    from .common import RomUndefined
+                                    raise RomUndefined('%s[%d]: %s' % (mm.name, a, e))
+                            return read
+                        rom = _rom(mem)
                     nl.mems[key] = AMem(key, mem.bitwidth, mem.addrwidth, rom, mem.name,
                                         mem.asynchronous)
                 p = key
